@@ -52,10 +52,10 @@ class _IntervalComputer(Generic[MODEL], MatcherStdTypeVisitor[MODEL, IntInterval
         return self._interval_adaption(operand.accept(self._negation_evaluator))
 
     def visit_conjunction(self, operands: Sequence[MatcherWTrace[MODEL]]) -> IntIntervalWInversion:
-        return self._bin_op(combinations.intersection, operands)
+        return self._bin_op(combinations.intersection, combinations.union, operands)
 
     def visit_disjunction(self, operands: Sequence[MatcherWTrace[MODEL]]) -> IntIntervalWInversion:
-        return self._bin_op(combinations.union, operands)
+        return self._bin_op(combinations.union, combinations.intersection, operands)
 
     def visit_non_standard(self, matcher: MatcherWTrace[MODEL]) -> IntIntervalWInversion:
         if isinstance(matcher, WithIntInterval):
@@ -65,12 +65,17 @@ class _IntervalComputer(Generic[MODEL], MatcherStdTypeVisitor[MODEL, IntInterval
 
     def _bin_op(self,
                 operator: Callable[[IntIntervalWInversion, IntIntervalWInversion], IntIntervalWInversion],
+                dual_operator: Callable[[IntIntervalWInversion, IntIntervalWInversion], IntIntervalWInversion],
                 operands: Sequence[MatcherWTrace],
                 ) -> IntIntervalWInversion:
-        unadapted = functools.reduce(operator, [operand.accept(self) for operand in operands])
+        operand_intervals = [operand.accept(self) for operand in operands]
+        unadapted = functools.reduce(operator, operand_intervals)
+        # De Morgan: the inversion is the dual combination of the inversions of the operands
+        # (the inversion of the class of the combined interval is not, since union gives the hull)
+        inversion = functools.reduce(dual_operator, [interval.inversion for interval in operand_intervals])
         return intervals.WithCustomInversion(
             unadapted,
-            self._interval_adaption(unadapted.inversion),
+            self._interval_adaption(inversion),
         )
 
 
